@@ -338,6 +338,17 @@ fn random_history(t: &mut Tape, gates: &Gates) -> Vec<Note> {
             }
             docs[u].push(text);
         }
+        // now and then a document with a great many diagnostics of its own (a rule that reports every
+        // occurrence): nothing is cut off, in this document or in the other one
+        if t.ratio(1, 8) {
+            let count = *t.pick(&[64usize, 99, 100, 101, 130, 260]);
+            let mut d = format!("PROGRAM {}many\nVAR CONSTANT\n", ["a", "b"][u]);
+            for i in 0..count {
+                d.push_str(&format!("c{} : INT;\n", i));
+            }
+            d.push_str("END_VAR\nEND_PROGRAM\n");
+            docs[u].push(d);
+        }
     }
     (0..n)
         .map(|_| {
